@@ -179,6 +179,11 @@ func init() {
 			in.sched.maybePreempt()
 			return nil
 		},
+		// verifSettle: every other goroutine runs until it blocks or ends (quiescence)
+		"verifSettle": func(in *Interp, fr *frame, args []Value) Value {
+			in.sched.othersFirst()
+			return nil
+		},
 	} {
 		verifIntrinsics[k] = v
 	}
